@@ -962,7 +962,10 @@ inline CaseResult Execute(const Cell& cell, int cell_id, u64 idx, int pass, bool
       const char* family;
       const char* prefix;
       const char* prop;
-    } kHbRules[] = {{"exec", "strand/", ",C07"}, {"cmutex", "mutex/", ",C14"}, {"core", "", ",C01"}, {"shared", "", ",C06"}};
+    } kHbRules[] = {{"exec", "strand/", ",C07"}, {"cmutex", "mutex/", ",C14"}, {"core", "", ",C01"}, {"shared", "", ",C06"},
+                    // "carrying that input's error / every input's value": a racing write of the recorded outcome is a
+                    // torn outcome under the memory model
+                    {"when", "all/", ",C09"}, {"when", "join/", ",C09"}, {"when", "any/", ",C10"}};
     std::string props = "C04";
     for (auto& r : kHbRules) {
       if (std::strcmp(g_cfg.family, r.family) == 0 && std::strncmp(cell.name, r.prefix, std::strlen(r.prefix)) == 0) {
